@@ -191,20 +191,21 @@ def suite(lane, k, n):
         print(rec, flush=True)
 
 
-OWN_SPACE = ["C11", "C12", "C13", "C14", "C16", "C08", "C07", "C15"]
+P2 = "p2"
+OWN_SPACE = ["C11", "C14", "C08", "C16", "C12", "C13"]
 ALL = ["C02", "C11", "C12", "C09", "C10", "C06", "C07", "C13", "C14", "C16", "C08", "C03", "C04", "C05", "C17", "C15", "C01"]
 DIGEST_SPACES = "S1,S2,S3,S4,S5,S7,S8,S9,seeded"
 
 
 def p2_env(d):
-    iso = os.path.join(ROOT, "p2")
+    iso = os.path.join(ROOT, P2)
     return dict(os.environ, VERIF_REPO=d, VERIF_ENGINE_DIR=os.path.join(iso, "engine"), VERIF_TARGET_DIR=os.path.join(iso, "target"),
                 VERIF_EVIDENCE_DIR=os.path.join(iso, "evidence"), VERIF_REPLAYS_DIR=os.path.join(iso, "replays"))
 
 
 def p2_setup():
-    d = lane_dir("p2w")
-    iso = os.path.join(ROOT, "p2")
+    d = lane_dir(P2 + "w")
+    iso = os.path.join(ROOT, P2)
     eng = os.path.join(iso, "engine")
     shutil.rmtree(eng, ignore_errors=True)
     os.makedirs(eng, exist_ok=True)
@@ -220,7 +221,7 @@ def p2_setup():
 
 def digests(d, tag):
     env = p2_env(d)
-    iso = os.path.join(ROOT, "p2")
+    iso = os.path.join(ROOT, P2)
     binary = os.path.join(iso, "target", "dbg-sep", "dbg", "lexmc")
     # build through the driver so that the variant is exactly the one the checks use
     p = sh(["/verif/check", "build", "dbg-sep"], env=env, cwd="/verif")
@@ -244,48 +245,84 @@ def digests(d, tag):
     return h
 
 
-def checks():
+def checks(k=0, n=1):
+    """phase 2 for survivors i with i % n == k. Pass 1: digest classification of every survivor;
+    pass 2: the quick checks for those whose digest differs, until one reports a violation;
+    pass 3 (file SAME_TOO present): the own-space checks for the same-digest ones."""
+    global P2
+    P2 = f"p2{k}"
     d = p2_setup()
     revert(d)
     env = p2_env(d)
     res = os.path.join(ROOT, "check_results.jsonl")
+    cls = os.path.join(ROOT, "digest_class.jsonl")
     base = digests(d, "base")
     print("baseline digest", base, flush=True)
     assert base
-    while True:
-        done = done_ids(res)
+
+    def survivors():
         try:
             todo = [json.loads(l) for l in open(os.path.join(ROOT, "survivors.jsonl"))]
         except FileNotFoundError:
             todo = []
-        todo = [m for m in todo if m["id"] not in done]
-        if not todo:
+        return [m for i, m in enumerate(todo) if i % n == k]
+
+    def run_checks(m, props, same):
+        revert(d)
+        apply(d, m)
+        t0 = time.time()
+        detected = None
+        tried = []
+        for prop in props:
+            p = sh(["/verif/check", prop, "quick"], env=env, cwd="/verif")
+            tried.append(prop)
+            if p.returncode == 1 and "VIOLATION" in p.stdout:
+                cl = [l for l in p.stdout.split("\n") if "clause:" in l]
+                detected = {"prop": prop, "clause": (cl[0].strip()[:200] if cl else "")}
+                break
+            if p.returncode not in (0, 1):
+                detected = {"prop": prop, "machinery": p.stdout[-300:]}
+                break
+        revert(d)
+        rec = {"id": m["id"], "old": m["old"].strip(), "new": m["new"].strip(), "same_digest": same, "detected": detected, "tried": tried, "secs": round(time.time() - t0, 1)}
+        append(res, rec)
+        print(rec, flush=True)
+
+    while True:
+        progressed = False
+        classified = {}
+        try:
+            for l in open(cls):
+                x = json.loads(l)
+                classified[x["id"]] = x["same"]
+        except FileNotFoundError:
+            pass
+        for m in survivors():
+            if m["id"] in classified:
+                continue
+            revert(d)
+            apply(d, m)
+            dg = digests(d, "mut")
+            revert(d)
+            classified[m["id"]] = dg == base
+            append(cls, {"id": m["id"], "same": dg == base, "ok": dg is not None})
+            print("class", m["id"], dg == base, flush=True)
+            progressed = True
+        done = done_ids(res)
+        for m in survivors():
+            if m["id"] not in done and classified.get(m["id"]) is False:
+                run_checks(m, ALL, False)
+                progressed = True
+        if os.path.exists(os.path.join(ROOT, "SAME_TOO")):
+            done = done_ids(res)
+            for m in survivors():
+                if m["id"] not in done and classified.get(m["id"]) is True:
+                    run_checks(m, OWN_SPACE, True)
+                    progressed = True
+        if not progressed:
             if os.path.exists(os.path.join(ROOT, "STOP")):
                 return
             time.sleep(30)
-            continue
-        for m in todo:
-            revert(d)
-            apply(d, m)
-            t0 = time.time()
-            dg = digests(d, "mut")
-            same = dg == base
-            detected = None
-            tried = []
-            for prop in (OWN_SPACE if same else ALL):
-                p = sh(["/verif/check", prop, "quick"], env=env, cwd="/verif")
-                tried.append(prop)
-                if p.returncode == 1 and "VIOLATION" in p.stdout:
-                    cl = [l for l in p.stdout.split("\n") if "clause:" in l]
-                    detected = {"prop": prop, "clause": (cl[0].strip()[:200] if cl else "")}
-                    break
-                if p.returncode not in (0, 1):
-                    detected = {"prop": prop, "machinery": p.stdout[-300:]}
-                    break
-            revert(d)
-            rec = {"id": m["id"], "old": m["old"].strip(), "new": m["new"].strip(), "same_digest": same, "detected": detected, "tried": tried, "secs": round(time.time() - t0, 1)}
-            append(res, rec)
-            print(rec, flush=True)
 
 
 if __name__ == "__main__":
@@ -298,4 +335,4 @@ if __name__ == "__main__":
     elif cmd == "suite":
         suite(sys.argv[2], int(sys.argv[3]), int(sys.argv[4]))
     elif cmd == "checks":
-        checks()
+        checks(int(sys.argv[2]) if len(sys.argv) > 2 else 0, int(sys.argv[3]) if len(sys.argv) > 3 else 1)
